@@ -19,6 +19,7 @@ import ClarabelProofs.Lemmas.SolverNSLoop
 import ClarabelProofs.Lemmas.SolverNSExample
 import ClarabelProofs.Lemmas.SolverNSNoPanicExample
 import ClarabelProofs.Lemmas.SolverNSWrightRealSolve
+import ClarabelProofs.Lemmas.SolverNSTotalReal
 
 namespace Clarabel.C04
 open Clarabel Clarabel.SolverNS
@@ -577,6 +578,112 @@ theorem ns_solve_keeps_invariant_real {st : SolverNS.Settings ℝ} (hf0 : 0 < st
     cases e with
     | panic site => exact hs
     | err k => exact hs.elim
+
+/-! ### the last site: the model's fuel for the unbounded `loop` of `backtrack_search` suffices
+
+Rust (`nonsymmetric_common.rs:164`): `α = α_init; loop { work = q + α·dq; if in_cone(work) {break};
+α *= step; if α < α_min { α = 0; break } }`.  Call sites (`step_length` of `expcone.rs:152`, `powcone.rs:155`,
+`genpowcone.rs:243`, dual then primal; model `SolverNS.stepFns`):
+
+| | model | Rust |
+|---|---|---|
+| fuel | `st.btFuel` (model only; drivers: 200000) | — (unbounded `loop`) |
+| `α_init` | running `α` of `innerfcn(α, true)`, `≤ αmax = min(ατ, ακ, 1) ≤ 1` | `αmax` argument |
+| `α_min` | `st.minTerminateStepLength` | `settings.min_terminate_step_length` (1e-4) |
+| `step` | `st.linesearchBacktrackStep` | `settings.linesearch_backtrack_step` (0.8) |
+
+`SolverNS.FuelOK st.ls` : `0 < btFuel ∧ 0 ≤ step ∧ step ^ btFuel < α_min`.  Defaults: fuel `≥ 42` suffices and
+`41` does not (`backtrack_fuel_default`).  OBSERVATION (code, not a panic): for `step = 1` — not excluded by
+any settings validation — the loop NEVER ends when the start is infeasible and `α_init ≥ α_min`
+(`backtrack_search_step_one_never_returns`); likewise for a NaN `α_init`/`step`/`α_min` in `f64`
+(`work` is NaN, the `>`-tests of the cones fail, `NaN < α_min` is false).  `FuelOK` with `α_min ≤ 1` forces
+`step < 1`. -/
+
+/-- [R] `C04.backtrack_search_fuel_suffices`: with positive fuel `N` and `α_init·step^N < α_min` the model's
+`backtrack_search` returns — whatever the cone test answers, with no sign condition on `step`, `α_init`
+— a value that is `0` or `α_init·step^k`, `k < N`, accepted by the cone test; in particular the
+result is never the fuel panic. -/
+theorem backtrack_search_fuel_suffices (dq q : Array ℝ) (aInit aMin step : ℝ)
+    (inCone : Array ℝ → Bool) {N : Nat} (hN : 0 < N) (h : aInit * step ^ N < aMin) :
+    ∃ r, Nonsym.backtrackSearch dq q aInit aMin step inCone N = .ok r
+      ∧ (r = 0 ∨ ∃ k, k < N ∧ r = aInit * step ^ k
+          ∧ inCone (Vec.waxpby 1 q (aInit * step ^ k) dq) = true) := by
+  obtain ⟨r, hr⟩ := SolverNS.backtrackSearch_fuel_ok' dq q aInit aMin step inCone hN h
+  exact ⟨r, hr, SolverNS.backtrackSearch_value dq q aMin step inCone N aInit r hr⟩
+
+example : (0 : ℕ) < 42 ∧ (1 : ℝ) * 0.8 ^ 42 < 1e-4 := by norm_num
+
+/-- [R] `C04.backtrack_search_fuel_sharp`: the inequality is sharp — when the cone test never accepts and
+`α_min ≤ α_init·step^k` for `1 ≤ k ≤ N`, fuel `N` IS exhausted (the Rust loop is still running after `N`
+rounds). -/
+theorem backtrack_search_fuel_sharp (dq q : Array ℝ) (aInit aMin step : ℝ) (inCone : Array ℝ → Bool)
+    (hC : ∀ w, inCone w = false) (N : Nat) (h : ∀ k, 1 ≤ k → k ≤ N → aMin ≤ aInit * step ^ k) :
+    Nonsym.backtrackSearch dq q aInit aMin step inCone N = .error (.panic "backtrack_search: fuel") :=
+  SolverNS.backtrackSearch_fuel_exhausted dq q aMin step inCone hC N aInit h
+
+/-- [R] `C04.backtrack_search_step_one_never_returns` (observation on the code): for `step = 1`, a start
+that is not in the cone (here: a test that never accepts) and `α_min ≤ α_init`, NO fuel suffices —
+`backtrack_search` in the code does not terminate. -/
+theorem backtrack_search_step_one_never_returns (dq q : Array ℝ) (aInit aMin : ℝ)
+    (inCone : Array ℝ → Bool) (hC : ∀ w, inCone w = false) (h : aMin ≤ aInit) (N : Nat) :
+    Nonsym.backtrackSearch dq q aInit aMin 1 inCone N = .error (.panic "backtrack_search: fuel") :=
+  SolverNS.backtrackSearch_step_one_never dq q aInit aMin inCone hC h N
+
+example : (1e-4 : ℝ) ≤ 0.99 := by norm_num
+
+/-- [R] `C04.backtrack_fuel_default`: for the default settings (`linesearch_backtrack_step = 0.8`,
+`min_terminate_step_length = 1e-4`) every fuel `≥ 42` satisfies `FuelOK` (the drivers' 200000 does), and
+fuel `41` is exhausted by a start `α_init = 1` whose direction never enters the cone. -/
+theorem backtrack_fuel_default :
+    (∀ N, 42 ≤ N → SolverNS.FuelOK (⟨0.8, 1e-4, N⟩ : SolverNS.LineSearch ℝ))
+    ∧ ∀ (dq q : Array ℝ) (inCone : Array ℝ → Bool), (∀ w, inCone w = false) →
+        Nonsym.backtrackSearch dq q 1 1e-4 0.8 inCone 41 = .error (.panic "backtrack_search: fuel") :=
+  ⟨fun _ hN => SolverNS.fuelOK_default hN, SolverNS.default_fuel_41_exhausted⟩
+
+/-- [R] `C04.backtrack_fuel_ok_of_le`: in general, `0 ≤ step ≤ 1`, a witness exponent `0 < n ≤ fuel` with
+`step^n < α_min` (for `0 < step < 1`: any `n > log α_min / log step`) give `FuelOK`. -/
+theorem backtrack_fuel_ok_of_le {ls : SolverNS.LineSearch ℝ} (h0 : 0 ≤ ls.step) (h1 : ls.step ≤ 1)
+    {n : Nat} (hn : 0 < n) (hle : n ≤ ls.fuel) (h : ls.step ^ n < ls.amin) : SolverNS.FuelOK ls :=
+  SolverNS.FuelOK.of_le h0 h1 hn hle h
+
+example : SolverNS.FuelOK (⟨0.8, 1e-4, 200000⟩ : SolverNS.LineSearch ℝ) :=
+  backtrack_fuel_ok_of_le (n := 42) (by norm_num) (by norm_num) (by norm_num) (by norm_num)
+    (by norm_num)
+
+/-- [R] `C04.ns_solve_total_real`: TOTAL panic-freedom of the whole-solver model with nonsymmetric
+cones over ℝ — under the hypotheses of `ns_no_panic_real` plus `FuelOK st.ls` (`0 < btFuel`,
+`linesearch_backtrack_step ^ btFuel < min_terminate_step_length`): `new` does not panic, the object it
+returns satisfies the invariant, and `solve()` on it returns `.ok r` with the invariant on `r.S` again.
+No exception is left (no panic at any site, no `.err`). -/
+theorem ns_solve_total_real {P : Csc ℝ} {q : Array ℝ} {A : Csc ℝ} {b : Array ℝ}
+    {cones : List (ConeT ℝ)} {st : SolverNS.Settings ℝ} {perm : Array Nat}
+    (hin : SolverNS.InputOKN P q A b cones) (hn : 0 < P.n)
+    (hperm : SolverNS.PermForN P q A b cones st perm) (hpiv : Clarabel.Solver.PivotOK st.lin)
+    (hf0 : 0 < st.maxStepFraction) (hf1 : st.maxStepFraction < 1) (hmv : 0 < st.maxValue)
+    (hb0 : 0 ≤ st.linesearchBacktrackStep) (hb1 : st.linesearchBacktrackStep ≤ 1)
+    (hF : SolverNS.FuelOK st.ls) :
+    Clarabel.Solver.NoPanic (SolverNS.Solver.new P q A b cones st perm) ∧
+      ∀ S, SolverNS.Solver.new P q A b cones st perm = .ok S →
+        Equil.ValidCones (SolverNS.layoutN S.st) → SolverNS.SolverInvN S ∧
+        ∃ r, S.solve st = .ok r ∧ SolverNS.SolverInvN r.S :=
+  ⟨SolverNS.solverNew_noPanicQ hin hn hperm hpiv, fun S h hv =>
+    ⟨SolverNS.solverNew_invQ hin hn hperm hpiv h,
+      SolverNS.solve_total_real hf0 hf1 hmv hb0 hb1 hF (SolverNS.solverNew_invQ hin hn hperm hpiv h)
+        (SolverNS.SizedN.of_new h) hv⟩⟩
+
+/-- [R] `C04.ns_solve_total_keeps_invariant_real` (the second, third, … `solve()`): over ℝ, under `FuelOK`,
+on EVERY solver object satisfying the state invariant, sized and with admissible cone parameters,
+`solve()` returns `.ok r` and `r.S` satisfies the same three conditions again. -/
+theorem ns_solve_total_keeps_invariant_real {st : SolverNS.Settings ℝ} (hf0 : 0 < st.maxStepFraction)
+    (hf1 : st.maxStepFraction < 1) (hmv : 0 < st.maxValue) (hb0 : 0 ≤ st.linesearchBacktrackStep)
+    (hb1 : st.linesearchBacktrackStep ≤ 1) (hF : SolverNS.FuelOK st.ls) {S : SolverNS.Solver ℝ}
+    (h : SolverNS.SolverInvN S) (hS : SolverNS.SizedN S.st)
+    (hv : Equil.ValidCones (SolverNS.layoutN S.st)) :
+    ∃ r, S.solve st = .ok r ∧ SolverNS.SolverInvN r.S ∧ SolverNS.SizedN r.S.st
+        ∧ Equil.ValidCones (SolverNS.layoutN r.S.st) := by
+  obtain ⟨r, hr, hI⟩ := SolverNS.solve_total_real hf0 hf1 hmv hb0 hb1 hF h hS hv
+  obtain ⟨g1, _, g3⟩ := SolverNS.solve_sizedN hS hr
+  exact ⟨r, hr, hI, g1, by rw [g3]; exact hv⟩
 
 end nsreal
 
